@@ -2,11 +2,11 @@ package checks
 
 import (
 	"context"
-	"strings"
 	"encoding/json"
 	"fmt"
 	"os"
 	"sort"
+	"strings"
 
 	"github.com/ipld/go-storethehash/store"
 
